@@ -32,10 +32,32 @@ Lemma Unrouted_same s s' : is_inreq s' = is_inreq s -> (forall k, ri_paused (rin
   forall rq, Unrouted s rq <-> Unrouted s' rq.
 Proof. intros Hi Hp rq. unfold Unrouted. rewrite Hi. split; intros [H|(k & H)]; auto; right; exists k; [rewrite Hp|rewrite <- Hp]; auto. Qed.
 
-(* complete() without discovered dependencies *)
-Lemma task_finish_nodisc s t ti v : task_of s t = Some ti -> ti_pending ti = Some v ->
-  task_finish rules s t = task_is_complete rules (iemit (set_ti s t (ti_with_pending None ti)) (EComplete t v)) t v.
-Proof. intros Hg Hp. unfold task_finish. unfold task_of in Hg. rewrite Hg, Hp, Hdisc. reflexivity. Qed.
+(* complete(): the discovered dependencies are noted in the task record *)
+Lemma fold_discovered_eff t ds : forall s ti, task_of s t = Some ti -> kind_of s t = KComputing ->
+  let s' := fold_left (fun s d => discovered s t d) ds s in
+  (forall k, rinfo_of s' k = rinfo_of s k) /\ task_of s' t = Some (ti_with_disc (ti_disc ti ++ map mkd ds) ti) /\
+  (forall t0, t0 <> t -> task_of s' t0 = task_of s t0) /\ is_inreq s' = is_inreq s /\ is_fininreq s' = is_fininreq s /\
+  is_fintasks s' = is_fintasks s /\ is_toscan s' = is_toscan s /\ is_usedb s' = is_usedb s /\ is_epoch s' = is_epoch s.
+Proof.
+  induction ds as [|d ds IH]; intros s ti Hg Hk; cbn [fold_left map].
+  - rewrite app_nil_r. repeat split; auto. rewrite Hg. now destruct ti.
+  - set (s1 := discovered s t d).
+    assert (E1 : s1 = set_ti s t (ti_add_disc d ti)).
+    { unfold s1, discovered. unfold task_of in Hg. rewrite Hg, Hk. cbn [kind_eqb negb]. apply (mod_ti_some _ _ _ _ Hg). }
+    assert (Hg1 : task_of s1 t = Some (ti_add_disc d ti)) by (rewrite E1; unfold task_of; autorewrite with iv; apply aget_aset_same).
+    assert (Hk1 : kind_of s1 t = KComputing) by (rewrite E1; exact Hk).
+    destruct (IH s1 _ Hg1 Hk1) as (A1 & A2 & A3 & A4 & A5 & A6 & A7 & A8 & A9). cbn zeta in *.
+    split; [intros k; rewrite A1, E1; now autorewrite with iv|]. split.
+    + rewrite A2. f_equal. unfold ti_add_disc, ti_with_disc. cbn. now rewrite <- app_assoc.
+    + split; [intros t0 Hne; rewrite (A3 t0 Hne), E1; unfold task_of; autorewrite with iv; rewrite aget_aset; apply N.eqb_neq in Hne; now rewrite Hne|].
+      rewrite A4, A5, A6, A7, A8, A9, E1. repeat split; now autorewrite with iv.
+Qed.
+
+Lemma rinfo_fold_discovered t ds : forall s k, rinfo_of (fold_left (fun s d => discovered s t d) ds s) k = rinfo_of s k.
+Proof.
+  induction ds as [|d ds IH]; intros s k; cbn [fold_left]; auto. rewrite IH. unfold discovered.
+  destruct (aget (is_tasks s) t) eqn:E; [|now autorewrite with iv]. destruct (negb _); [now autorewrite with iv|]. rewrite (mod_ti_some _ _ _ _ E). now autorewrite with iv.
+Qed.
 
 Definition sreq_scanning (s : istate) : Prop := forall rq, Sreq s rq -> kind_of s (sq_rule rq) = KScanning.
 
@@ -52,22 +74,36 @@ Lemma BInv_task_finish root x s t : BInv root x s -> sreq_scanning s -> nf (task
 Proof.
   intros (HT & HC & HS) Hss Hn. destruct (task_of s t) as [ti|] eqn:Hg; [|unfold task_finish; unfold task_of in Hg; rewrite Hg; exact (conj HT (conj HC HS))].
   destruct (ti_pending ti) as [v|] eqn:Hp; [|unfold task_finish; unfold task_of in Hg; rewrite Hg, Hp; exact (conj HT (conj HC HS))].
-  rewrite (task_finish_nodisc s t ti v Hg Hp) in *.
-  set (tiN := ti_with_pending None ti) in *. set (s3 := iemit (set_ti s t tiN) (EComplete t v)) in *.
+  unfold task_finish in *. unfold task_of in Hg. rewrite Hg, Hp in *. fold (task_of s t) in Hg.
+  set (tiP := ti_with_pending None ti) in *. set (s0 := set_ti s t tiP) in *.
+  set (sF := fold_left (fun s d => discovered s t d) (r_disc (rules t)) s0) in *. set (s3 := iemit sF (EComplete t v)) in *.
   assert (Hk3 : kind_of s3 t = KComputing).
   { unfold task_is_complete in Hn. destruct (kind_eqb (kind_of s3 t) KComputing) eqn:E; [now apply kind_eqb_eq|]. cbn [negb] in Hn. now apply nf_fault in Hn. }
-  assert (Hk : kind_of s t = KComputing) by exact Hk3.
-  unfold task_is_complete. rewrite Hk3. cbn [kind_eqb negb]. cbn zeta.
-  set (r' := completed_result (r_sig (rules t)) (is_epoch s3) (res_of s3 t) v).
+  assert (Hk : kind_of s t = KComputing).
+  { unfold kind_of in *. change (rinfo_of s3 t) with (rinfo_of sF t) in Hk3. unfold sF in Hk3. rewrite rinfo_fold_discovered in Hk3. exact Hk3. }
+  assert (Hg0 : task_of s0 t = Some tiP) by (unfold s0, task_of; autorewrite with iv; apply aget_aset_same).
+  destruct (fold_discovered_eff t (r_disc (rules t)) s0 tiP Hg0 Hk) as (A1 & A2 & A3 & A4 & A5 & A6 & A7 & A8 & A9). fold sF in A1, A2, A3, A4, A5, A6, A7, A8, A9.
+  set (tiN := ti_with_disc (ti_disc tiP ++ map mkd (r_disc (rules t))) tiP) in *.
+  assert (Hr3 : res_of s3 t = res_of s t) by (unfold res_of; change (rinfo_of s3 t) with (rinfo_of sF t); rewrite A1; unfold s0; now autorewrite with iv).
+  assert (He3 : is_epoch s3 = is_epoch s) by (unfold s3; autorewrite with iv; rewrite A9; unfold s0; now autorewrite with iv).
+  unfold task_is_complete. rewrite Hk3. cbn [kind_eqb negb]. cbn zeta. rewrite Hr3, He3.
+  set (r' := completed_result (r_sig (rules t)) (is_epoch s) (res_of s t) v).
   set (s' := upd_fintasks (set_res s3 t r') (t :: is_fintasks (set_res s3 t r'))).
   assert (RI : forall k, rinfo_of s' k = if N.eqb k t then ri_with_res r' (rinfo_of s t) else rinfo_of s k).
-  { intros k. unfold s', s3. now autorewrite with iv. }
+  { intros k. unfold s', s3. autorewrite with iv. rewrite !A1. unfold s0. now autorewrite with iv. }
+  assert (Ei : is_inreq s' = is_inreq s) by (unfold s', s3; autorewrite with iv; rewrite A4; unfold s0; now autorewrite with iv).
+  assert (Ef : is_fininreq s' = is_fininreq s) by (unfold s', s3; autorewrite with iv; rewrite A5; unfold s0; now autorewrite with iv).
+  assert (Eft : is_fintasks s' = t :: is_fintasks s) by (unfold s', s3; autorewrite with iv; rewrite A6; unfold s0; now autorewrite with iv).
+  assert (Ets : is_toscan s' = is_toscan s) by (unfold s', s3; autorewrite with iv; rewrite A7; unfold s0; now autorewrite with iv).
+  assert (Eu : is_usedb s' = is_usedb s) by (unfold s', s3; autorewrite with iv; rewrite A8; unfold s0; now autorewrite with iv).
+  assert (Ee : is_epoch s' = is_epoch s) by (unfold s', s3; autorewrite with iv; rewrite A9; unfold s0; now autorewrite with iv).
   assert (RO : forall k, k <> t -> res_of s' k = res_of s k /\ kind_of s' k = kind_of s k).
   { intros k Hne. apply N.eqb_neq in Hne. unfold res_of, kind_of. now rewrite RI, Hne. }
   assert (RT : res_of s' t = r' /\ kind_of s' t = KComputing).
   { unfold res_of, kind_of. rewrite RI, N.eqb_refl. split; auto. }
   assert (TK : forall t0, task_of s' t0 = if N.eqb t0 t then Some tiN else task_of s t0).
-  { intros t0. unfold s', s3, task_of. autorewrite with iv. now rewrite aget_aset. }
+  { intros t0. assert (E0 : task_of s' t0 = task_of sF t0) by (unfold s', s3, task_of; now autorewrite with iv). rewrite E0.
+    destruct (N.eqb t0 t) eqn:E; [apply N.eqb_eq in E; subst t0; exact A2|]. apply N.eqb_neq in E. rewrite (A3 t0 E). unfold s0, task_of. autorewrite with iv. rewrite aget_aset. apply N.eqb_neq in E. now rewrite E. }
   assert (Hv' : stored s' t = Some v) by (unfold stored; destruct RT as [-> _]; apply completed_result_value).
   assert (HP : forall k, ri_paused (rinfo_of s' k) = ri_paused (rinfo_of s k) /\ ri_deferred (rinfo_of s' k) = ri_deferred (rinfo_of s k) /\ ri_cancelled (rinfo_of s' k) = ri_cancelled (rinfo_of s k)).
   { intros k. rewrite RI. destruct (N.eqb k t) eqn:E; auto. apply N.eqb_eq in E. subst k. auto. }
@@ -83,39 +119,45 @@ Proof.
   split; [|split].
   - (* tasks and values *)
     destruct HT as [T1 T2 T3 T4 T5 T6 T7].
-    assert (Hfw : forall t0 y, task_of s t0 = Some y -> exists z, task_of s' t0 = Some z /\ ti_slots z = ti_slots y /\ ti_branched z = ti_branched y /\ ti_reqby z = ti_reqby y /\ ti_disc z = ti_disc y /\ (t0 <> t -> z = y)).
+    assert (Hfw : forall t0 y, task_of s t0 = Some y -> exists z, task_of s' t0 = Some z /\ ti_slots z = ti_slots y /\ ti_branched z = ti_branched y /\ ti_reqby z = ti_reqby y /\ (t0 <> t -> z = y)).
     { intros t0 y Hy. rewrite TK. destruct (N.eqb t0 t) eqn:E; [|exists y; repeat split; auto].
       apply N.eqb_eq in E. subst t0. rewrite Hg in Hy. inversion Hy. subst y. exists tiN. repeat split; auto. intros H. now contradiction H. }
-    assert (Hbw : forall t0 z, task_of s' t0 = Some z -> exists y, task_of s t0 = Some y /\ ti_slots z = ti_slots y /\ ti_branched z = ti_branched y /\ ti_reqby z = ti_reqby y /\ ti_disc z = ti_disc y /\ (t0 <> t -> z = y) /\ (t0 = t -> z = tiN)).
+    assert (Hbw : forall t0 z, task_of s' t0 = Some z -> exists y, task_of s t0 = Some y /\ ti_slots z = ti_slots y /\ ti_branched z = ti_branched y /\ ti_reqby z = ti_reqby y /\ (t0 <> t -> z = y) /\ (t0 = t -> z = tiN)).
     { intros t0 z. rewrite TK. destruct (N.eqb t0 t) eqn:E; intros Hz.
       - apply N.eqb_eq in E. subst t0. inversion Hz. subst z. exists ti. repeat split; auto. intros H. now contradiction H.
       - exists z. apply N.eqb_neq in E. repeat split; auto. intros H. contradiction. }
-    assert (HU : forall rq, Unrouted s rq <-> Unrouted s' rq) by (apply Unrouted_same; [reflexivity|intros k; apply HP]).
+    assert (HU : forall rq, Unrouted s rq <-> Unrouted s' rq) by (apply Unrouted_same; [exact Ei|intros k; apply HP]).
     assert (O1 : forall rq, Oreq2 s rq -> Oreq2 s' rq).
-    { apply Oreq2_sub; [intros rq; apply HU|apply incl_refl|]. intros t0 y Hy. destruct (Hfw t0 y Hy) as (z & Hz & _ & _ & Hr & _). exists z. split; auto. rewrite Hr. apply incl_refl. }
+    { apply Oreq2_sub; [intros rq; apply HU|rewrite Ef; apply incl_refl|]. intros t0 y Hy. destruct (Hfw t0 y Hy) as (z & Hz & _ & _ & Hr & _). exists z. split; auto. rewrite Hr. apply incl_refl. }
     assert (O2 : forall rq, Oreq2 s' rq -> Oreq2 s rq).
-    { apply Oreq2_sub; [intros rq; apply HU|apply incl_refl|]. intros t0 z Hz. destruct (Hbw t0 z Hz) as (y & Hy & _ & _ & Hr & _). exists y. split; auto. rewrite Hr. apply incl_refl. }
+    { apply Oreq2_sub; [intros rq; apply HU|rewrite Ef; apply incl_refl|]. intros t0 z Hz. destruct (Hbw t0 z Hz) as (y & Hy & _ & _ & Hr & _). exists y. split; auto. rewrite Hr. apply incl_refl. }
     constructor.
-    + exact T1.
-    + exact T2.
+    + congruence.
+    + congruence.
     + intros k Hc. apply Hcurk in Hc. assert (Hne : k <> t) by (intros ->; destruct Hc as [Hc _]; congruence).
       unfold stored. destruct (RO k Hne) as [-> _]. now apply T3.
     + intros rq Ho. destruct (T4 rq (O2 rq Ho)) as [Hw Hsg]. split; auto.
       apply (rq_wf_sub rules env F rank s s'); auto. intros t0 y Hy. destruct (Hfw t0 y Hy) as (z & Hz & Hs & _). exists z. split; auto. rewrite Hs. lia.
-    + intros rq Hin. apply Hcurk. now apply T5.
-    + intros t0 z Hz. destruct (Hbw t0 z Hz) as (y & Hy & E1 & E2 & E3 & E4 & E5 & E6). destruct (T6 t0 y Hy) as [K1 K2 K3 K4 K5 K6 K7 K8 K9 K10 K11].
+    + intros rq. rewrite Ef. intros Hin. apply Hcurk. now apply T5.
+    + intros t0 z Hz. destruct (Hbw t0 z Hz) as (y & Hy & E1 & E2 & E3 & E5 & E6). destruct (T6 t0 y Hy) as [K1 K2 K3 K4 K5 K6 K7 K8 K9 K10 K11].
       constructor; rewrite ?E1, ?E2; auto.
       * intros i Hu Hn0. destruct (K3 i Hu Hn0) as (rq & H1 & H2). exists rq. split; auto.
       * destruct (N.eq_dec t0 t) as [->|E]; [rewrite (E6 eq_refl); discriminate|rewrite (E5 E); exact K5].
       * destruct (N.eq_dec t0 t) as [->|E]; [intros _; rewrite Hv'; exact Hcv|].
-        intros [H|H]; [congruence|]. unfold stored. destruct (RO t0 E) as [-> _]. now apply K6.
+        rewrite Eft. intros [H|H]; [congruence|]. unfold stored. destruct (RO t0 E) as [-> _]. now apply K6.
       * intros i y0 Hu0 Hi Hy0. rewrite Hdeps. destruct (K7 i y0 Hu0 Hi Hy0) as [(rq & H1 & H2)|H]; [left; exists rq; split; [now apply HU|auto]|now right].
       * intros d. rewrite Hdeps. intros Hd. destruct (K8 d Hd) as [H|(rq & H1 & H2)]; [left; now apply Hcurk|right; exists rq; split; auto].
       * intros d. rewrite Hdeps. apply K9.
-      * now rewrite E4.
+      * destruct K10 as (D1 & D2 & D3). destruct (N.eq_dec t0 t) as [->|E].
+        -- rewrite (E6 eq_refl). rewrite Hg in Hy. inversion Hy. subst y. cbn [tiN tiP ti_with_disc ti_with_pending ti_disc ti_pending].
+           rewrite (D2 (D3 ltac:(congruence))). cbn [app]. rewrite Eft. split; [auto|]. split; [intros H; exfalso; apply H; now left|intros H; now contradiction H].
+        -- rewrite (E5 E). rewrite Eft. repeat split.
+           ++ intros [H|H]; [congruence|auto].
+           ++ intros H. apply D2. intros H'. apply H. now right.
+           ++ intros Hp0 [H|H]; [congruence|]. now apply (D3 Hp0).
       * destruct (N.eq_dec t0 t) as [->|E]; [intros _; destruct RT as [-> _]; unfold r'; apply completed_result_sig|].
-        intros [H|H]; [congruence|]. destruct (RO t0 E) as [-> _]. now apply K11.
-    + destruct T7 as [H|[(k & H)|[H|H]]]; [now left|right; left; exists k; now rewrite (proj1 (HP k))| |right; right; right; now apply Hcurk].
+        rewrite Eft. intros [H|H]; [congruence|]. destruct (RO t0 E) as [-> _]. now apply K11.
+    + destruct T7 as [H|[(k & H)|[H|H]]]; [left; now rewrite Ei|right; left; exists k; now rewrite (proj1 (HP k))| |right; right; right; now apply Hcurk].
       right. right. left. destruct (N.eq_dec root t) as [->|E]; [apply Hip|]. unfold is_in_progress in *. now destruct (RO root E) as [_ ->].
   - (* stored results *)
     apply (BC_change rules F (fun k => N.eqb k t) s s'); auto.
@@ -125,13 +167,15 @@ Proof.
       * unfold bAt. destruct RT as [-> _]. unfold r'. apply completed_result_built.
       * intros _. destruct RT as [-> _]. unfold r'. apply completed_result_sig.
     + intros k E. apply N.eqb_eq in E. subst k. unfold stored, cAt. destruct RT as [-> _]. unfold r'. apply completed_result_cases.
+    + intros y (rq & Hu' & H1' & H2'). left. exists rq. split; auto. apply (Unrouted_same s s' Ei (fun k => proj1 (HP k))). exact Hu'.
   - (* scanning *)
     apply (BS_change rules env F rank (fun k => N.eqb k t) x s s'); auto.
     + intros k E. apply N.eqb_neq in E. now apply RO.
     + intros k E. apply N.eqb_eq in E. subst k. split; [apply in_progress_unsettled|]; apply Hip.
-    + intros rq [H|[(k & H)|(t0 & z & Hz & H)]]; [now left|right; left; exists k; now rewrite <- (proj1 (proj2 (HP k)))|].
+    + intros rq [H|[(k & H)|(t0 & z & Hz & H)]]; [left; now rewrite <- Ets|right; left; exists k; now rewrite <- (proj1 (proj2 (HP k)))|].
       right. right. rewrite TK in Hz. destruct (N.eqb t0 t) eqn:E; [|eauto]. apply N.eqb_eq in E. subst t0. inversion Hz. subst z. exists t, ti. auto.
     + intros k _. now rewrite (proj1 (HP k)), (proj1 (proj2 (HP k))).
+    + intros k _ [(rq & H1 & H2)|(rq & H1 & H2)]; [left; exists rq; now rewrite Ets|right; exists rq; now rewrite Ei].
 Qed.
 
 Notation bkK := (bkK rules env F rank).
@@ -179,10 +223,10 @@ Qed.
 
 
 (* ---------- the ready-queue step ---------- *)
-Lemma BInv_avail_unit root x s rest t ti tv : BInv root x s -> sreq_scanning s -> task_of s t = Some ti -> kind_of s t = KWaiting -> Some tv = cvK t ->
+Lemma BInv_avail_unit root x s rest t ti tv : BInv root x s -> sreq_scanning s -> task_of s t = Some ti -> kind_of s t = KWaiting -> ~ In t (is_fintasks s) -> Some tv = cvK t ->
   BInv root x (set_ti (iemit (set_kind (upd_ready s rest) t KComputing) (EAvail t)) t (ti_with_pending (Some tv) ti)).
 Proof.
-  intros (HT & HC & HS) Hss Hg Hk Htv. set (s' := set_ti _ t _).
+  intros (HT & HC & HS) Hss Hg Hk Hnft Htv. set (s' := set_ti _ t _).
   assert (RI : forall k, rinfo_of s' k = if N.eqb k t then ri_with_kind KComputing (rinfo_of s t) else rinfo_of s k).
   { intros k. unfold s', set_kind. now autorewrite with iv. }
   assert (HR : forall k, res_of s' k = res_of s k).
@@ -226,6 +270,7 @@ Proof.
         -- intros i y0 Hu0 Hi Hy0. rewrite Hdeps. destruct (K7 i y0 Hu0 Hi Hy0) as [(rq & H1 & H2)|H]; [left; exists rq; split; [now apply HU|auto]|now right].
         -- intros d. rewrite Hdeps. intros Hd. destruct (K8 d Hd) as [H|(rq & H1 & H2)]; [left; now apply Hcurk|right; exists rq; split; auto].
         -- intros d. rewrite Hdeps. apply K9.
+        -- destruct K10 as (D1 & D2 & D3). split; [exact D1|]. split; [exact D2|intros _; exact Hnft].
         -- rewrite HR. exact K11.
       * destruct (T6 t0 z Hz) as [K1 K2 K3 K4 K5 K6 K7 K8 K9 K10 K11]. constructor; auto.
         -- intros i Hu Hn0. destruct (K3 i Hu Hn0) as (rq & H1 & H2). exists rq. split; auto.
@@ -241,6 +286,7 @@ Proof.
     + intros k E. apply N.eqb_eq in E. subst k. destruct Hip as [I1 I2]. split; [now apply in_progress_unsettled|]. split; [exact I2|]. unfold bAt. rewrite HR. split; [reflexivity|].
       intros Hb. now apply (b_sig _ _ _ HC).
     + intros k E. left. unfold cAt. now rewrite Hst, HR.
+    + intros y (rq & Hu' & H1' & H2'). left. exists rq. split; auto. apply (Unrouted_same s s' eq_refl (fun k => proj1 (HP k))). exact Hu'.
   - apply (BS_change rules env F rank (fun k => N.eqb k t) x s s'); auto.
     + intros k E. apply N.eqb_eq in E. subst k. split; [apply in_progress_unsettled|]; apply Hip.
     + intros rq [H|[(k & H)|(t0 & z & Hz & H)]]; [now left|right; left; exists k; now rewrite <- (proj1 (proj2 (HP k)))|].
@@ -276,9 +322,11 @@ Proof.
       * intros i y Hu0 Hi' Hy. rewrite Hd. destruct (K7 i y Hu0 Hi' Hy) as [(rq & H1 & H2)|H]; [left; exists rq; split; [now apply HU|auto]|now right].
       * intros d. rewrite Hd. intros Hin. destruct (K8 d Hin) as [H|(rq & H1 & H2)]; [left; now apply Hcurk|right; exists rq; split; auto; now apply HO].
       * intros d. rewrite Hd. apply K9.
+      * rewrite Hft. exact K10.
       * rewrite Hft, HRes. exact K11.
     + rewrite Hi, (in_progress_of_kind s s' root (HK root)). destruct T7 as [H|[(k & H)|[H|H]]]; auto; [right; left; exists k; now rewrite HR|right; right; right; now apply Hcurk].
-  - apply (BC_change rules F (fun _ => false) s s'); auto; try discriminate. intros k. rewrite HR. apply HC.
+  - apply (BC_change rules F (fun _ => false) s s'); auto; try discriminate; [intros k; rewrite HR; apply HC|].
+    intros y (rq & Hu' & H1' & H2'). left. exists rq. split; auto. now apply HU.
   - apply (BS_change rules env F rank (fun _ => false) x s s'); auto; try discriminate.
     + intros rq [H|[(k & H)|(t0 & z & Hz & H)]]; [left; congruence|right; left; exists k; now rewrite <- HR|right; right; exists t0, z; now rewrite <- Htk].
     + intros k _. now rewrite HR.
@@ -296,7 +344,9 @@ Qed.
 Lemma BInv_step_ready root syncp s : Inv rules ctx0 s -> BInv root None s -> nf (step_ready rules env F syncp s) ->
   BInv root None (step_ready rules env F syncp s).
 Proof.
-  intros HI HB Hn. unfold step_ready in *. destruct (is_ready s) as [|t rest] eqn:Hq; auto.
+  intros HI HB Hn.
+  pose proof (Inv_sreq_scanning ctx0 _ (Inv_mstep rules env F (fun _ => []) syncp _ _ (ms_ready rules env F (fun _ => []) syncp s) HI)) as Hfin.
+  unfold step_ready in *. destruct (is_ready s) as [|t rest] eqn:Hq; auto.
   pose proof HI as (_ & HT & HII & _). pose proof (Inv_sreq_scanning ctx0 s HI) as Hss.
   destruct (t_rd1 ctx0 s HT t) as (ti & Hg & Hk & Hw); [rewrite Hq; now left|].
   assert (Hz : (cnt_i t (cx_fi ctx0) + outstanding_count s t = 0)%nat) by (rewrite <- (i_wc rules ctx0 s HII t ti Hg); exact Hw).
@@ -309,7 +359,8 @@ Proof.
   change (kind_of (upd_ready s rest) t) with (kind_of s t) in *. rewrite Hk in *. cbn [kind_eqb check] in *.
   unfold avail_body in *. change (aget (is_tasks (iemit (set_kind (upd_ready s rest) t KComputing) (EAvail t))) t) with (aget (is_tasks s) t) in *.
   unfold task_of in Hg. rewrite Hg in *. cbn zeta in *.
-  pose proof (BInv_avail_unit root None s rest t ti (task_value rules env F t ti) HB Hss Hg Hk Htv) as HB1.
+  assert (Hnft : ~ In t (is_fintasks s)) by (intros H; destruct (t_ft ctx0 s HT t H) as (_ & _ & Hkc & _); congruence).
+  pose proof (BInv_avail_unit root None s rest t ti (task_value rules env F t ti) HB Hss Hg Hk Hnft Htv) as HB1.
   set (s2 := set_ti _ t _) in *.
   assert (Hss2 : sreq_scanning s2).
   { intros rq Hrq. assert (Hrq0 : Sreq s rq).
@@ -321,19 +372,7 @@ Proof.
   assert (Hn2 : nf (if syncp t then task_finish rules s2 t else s2)) by (unfold nf in *; now rewrite is_fault_upd_outstanding in Hn).
   assert (HB2 : BInv root None (if syncp t then task_finish rules s2 t else s2)).
   { destruct (syncp t); auto. now apply BInv_task_finish. }
-  assert (Hss3 : sreq_scanning (if syncp t then task_finish rules s2 t else s2)).
-  { destruct (syncp t); auto. intros rq Hrq.
-    (* task_finish keeps the scan requests and the kinds of rules that are not in progress *)
-    destruct (task_of s2 t) as [ti2|] eqn:Hg2; [|unfold task_finish in *; unfold task_of in Hg2; rewrite Hg2 in *; now apply Hss2].
-    destruct (ti_pending ti2) as [v|] eqn:Hp2; [|unfold task_finish in *; unfold task_of in Hg2; rewrite Hg2, Hp2 in *; now apply Hss2].
-    rewrite (task_finish_nodisc s2 t ti2 v Hg2 Hp2) in *. unfold task_is_complete in *.
-    destruct (negb (kind_eqb (kind_of (iemit (set_ti s2 t (ti_with_pending None ti2)) (EComplete t v)) t) KComputing)); [now apply nf_fault in Hn2|]. cbn zeta in *.
-    assert (Hrq2 : Sreq s2 rq).
-    { destruct Hrq as [H|[(k & H)|(t0 & z & Hz0 & H)]]; [now left|right; left; exists k; autorewrite with iv in H; destruct (N.eqb k t) eqn:E; [apply N.eqb_eq in E; subst k|]; exact H|].
-      right. right. unfold task_of in Hz0. autorewrite with iv in Hz0. rewrite aget_aset in Hz0. destruct (N.eqb t0 t) eqn:E; [|eauto].
-      apply N.eqb_eq in E. subst t0. inversion Hz0. subst z. exists t, ti2. auto. }
-    pose proof (Hss2 rq Hrq2) as Hks. unfold kind_of. autorewrite with iv. destruct (N.eqb (sq_rule rq) t) eqn:E; [|exact Hks].
-    apply N.eqb_eq in E. rewrite E in *. exact Hks. }
+  assert (Hss3 : sreq_scanning (if syncp t then task_finish rules s2 t else s2)) by (intros rq Hrq; exact (Hfin rq Hrq)).
   eapply BInv_frame; [..|exact Hss3|exact HB2]; auto.
 Qed.
 End Inc.
